@@ -12,11 +12,12 @@ func getIndelsPair(ref, query []byte, offsetRefCoord []int, offsetMSACoord []int
 
 	var (
 		insOpen   bool
-		insStart  int
 		insLength int
 		delOpen   bool
 		delStart  int
 		delLength int
+		refSeen   int // the number of reference bases to the left of the current alignment column
+		insRefPos int // refSeen at the start of the open insertion: the insertion is immediately after this reference base
 	)
 
 	variants := make([]Variant, 0)
@@ -29,16 +30,17 @@ func getIndelsPair(ref, query []byte, offsetRefCoord []int, offsetMSACoord []int
 				if insOpen { // not the first position of an insertion
 					insLength++ // we increment the length counter
 				} else { // the first position of an insertion
-					insStart = pos // we record the first position of the insertion 0-based in alignment coordinates
+					insRefPos = refSeen // we record where the insertion starts, in reference coordinates
 					insLength = 1
 					insOpen = true
 				}
 			}
 		} else { // not an insertion relative to the reference at this position
 			if insOpen { // first base after an insertion, so we need to log the insertion
-				variants = append(variants, Variant{Changetype: "ins", Position: (insStart - offsetMSACoord[insStart]), Length: insLength})
+				variants = append(variants, Variant{Changetype: "ins", Position: insRefPos, Length: insLength})
 				insOpen = false
 			}
+			refSeen++
 			if query[pos] == 244 { // deletion in this seq
 				if delOpen { // not the first position of a deletion
 					delLength++ // we increment the length (there is not a deletion in the reference)
@@ -64,7 +66,7 @@ func getIndelsPair(ref, query []byte, offsetRefCoord []int, offsetMSACoord []int
 	// }
 	// catch insertions that abut the end of the alignment
 	if insOpen {
-		variants = append(variants, Variant{Changetype: "ins", Position: (insStart - offsetMSACoord[insStart]) + 1, Length: insLength})
+		variants = append(variants, Variant{Changetype: "ins", Position: insRefPos, Length: insLength})
 	}
 
 	return variants
